@@ -1503,3 +1503,280 @@ func freshBase(v ssa.Value) bool {
 	}
 	return false
 }
+
+// ---------------------------------------------------------------------------
+// TABLE/legacy-select (C01, C02): which encoding a client gets is decided by its
+// negotiated protocol version in one way everywhere: versions below the one
+// that introduced soft references and data values (1.2.1) get the legacy
+// encoding, that version and later ones the current encoding.
+//   - every comparison of ProtocolVersion() with a constant in package server is
+//     `version < versionSoftResourceReferenceAndDataValue`;
+//   - every use of a legacy encoder outside the legacy encoders themselves is
+//     dominated by the true edge of such a test, and no such use lies under a
+//     false edge.
+// In rescache the legacy marshalers convert exactly when a value is a soft
+// reference or a data value, and hand the resource to the current marshaler
+// otherwise.
+
+func ruleLegacySelect(c *Ctx) {
+	p := c.P
+	kSoft := p.ConstInt("server.versionSoftResourceReferenceAndDataValue", -1)
+	if kSoft < 0 {
+		c.undecided("server.versionSoftResourceReferenceAndDataValue", "anchor", "-", "constant not found")
+		return
+	}
+	isVersionCall := func(v ssa.Value) bool {
+		cl, ok := v.(*ssa.Call)
+		if !ok {
+			return false
+		}
+		f := calleeFunc(&cl.Call)
+		return f != nil && f.Name() == "ProtocolVersion"
+	}
+	// proper: the edge dir of i establishes version < kSoft
+	versionTest := func(i *ssa.If) (legacyDir bool, proper bool, isTest bool) {
+		bo, ok := i.Cond.(*ssa.BinOp)
+		if !ok {
+			return
+		}
+		var op token.Token
+		var k int64
+		switch {
+		case isVersionCall(bo.X):
+			kk, isC := constInt(bo.Y)
+			if !isC {
+				return
+			}
+			op, k = bo.Op, kk
+		case isVersionCall(bo.Y):
+			kk, isC := constInt(bo.X)
+			if !isC {
+				return
+			}
+			op, k = relSwap[bo.Op], kk
+		default:
+			return
+		}
+		isTest = true
+		switch {
+		case op == token.LSS && k == kSoft:
+			return true, true, true
+		case op == token.GEQ && k == kSoft:
+			return false, true, true
+		case op == token.LEQ && k == kSoft-1:
+			return true, true, true
+		case op == token.GTR && k == kSoft-1:
+			return false, true, true
+		}
+		return false, false, true
+	}
+	isLegacyMarker := func(in ssa.Instruction) bool {
+		switch x := in.(type) {
+		case ssa.CallInstruction:
+			if f := calleeFunc(x.Common()); f != nil && strings.Contains(f.Name(), "Legacy") {
+				return true
+			}
+		case *ssa.ChangeType:
+			return strings.Contains(x.Type().String(), "Legacy")
+		case *ssa.Convert:
+			return strings.Contains(x.Type().String(), "Legacy")
+		}
+		return false
+	}
+	nTests := 0
+	for _, fn := range p.Repo {
+		if !inScopePkgs(fn, "server") {
+			continue
+		}
+		top := TopLevel(fn)
+		selfLegacy := strings.Contains(top.Name(), "Legacy")
+		var tests []*ssa.If
+		for _, b := range fn.Blocks {
+			if i := blockIf(b); i != nil {
+				if _, proper, isTest := versionTest(i); isTest {
+					nTests++
+					c.inst(1)
+					tests = append(tests, i)
+					c.check(proper, fnName(fn), "a protocol version is compared as `version < 1.2.1` (legacy below, current from 1.2.1 on)", p.InstrPos(i), "version < versionSoftResourceReferenceAndDataValue",
+						"the negotiated protocol version is compared in another way than `< versionSoftResourceReferenceAndDataValue`: a client that negotiated exactly 1.2.1 (or a neighbouring version) is served the other dialect — soft references and data values arrive in a form it cannot read")
+				}
+			}
+		}
+		if selfLegacy {
+			continue
+		}
+		for _, in := range instrsOf(fn) {
+			if !isLegacyMarker(in) {
+				continue
+			}
+			c.inst(1)
+			under := func(i *ssa.If) (bool, bool) {
+				if ld, proper, isTest := versionTest(i); isTest && proper {
+					return ld, true
+				}
+				return false, false
+			}
+			wrong := func(i *ssa.If) (bool, bool) {
+				if ld, proper, isTest := versionTest(i); isTest && proper {
+					return !ld, true
+				}
+				return false, false
+			}
+			okU := p.guardedBy(in, under) != nil
+			if !okU && fn.Parent() == nil && p.guardedUp(in, under, 0) {
+				okU = true
+			}
+			bad := ""
+			if !okU {
+				bad = "a legacy encoder is used on a path that has not established that the client's protocol version is below 1.2.1: current clients are sent the 1.2.0 dialect (soft references as strings, data values as placeholders)"
+			}
+			if p.guardedBy(in, wrong) != nil {
+				bad = "a legacy encoder is used on the branch for clients at or above 1.2.1 (the selection is inverted)"
+			}
+			c.check(bad == "", fnName(fn), "legacy encoders are used exactly for clients below 1.2.1", p.InstrPos(in), "dominated by the version < 1.2.1 edge", bad)
+		}
+	}
+	if nTests == 0 {
+		c.viol("server", "a protocol version is compared as `version < 1.2.1`", "-", "no protocol version test found")
+	}
+	// rescache: the legacy marshalers convert exactly for soft references and data values
+	kSoftRef := p.ConstInt("codec.ValueTypeSoftReference", -1)
+	kData := p.ConstInt("codec.ValueTypeData", -1)
+	fType := p.Field("codec.Value.Type")
+	for _, nm := range []string{"(*rescache.Legacy120Model).MarshalJSON", "(*rescache.Legacy120Collection).MarshalJSON"} {
+		fn := p.Fn(nm)
+		if fn == nil || fType == nil || kSoftRef < 0 || kData < 0 {
+			c.undecided(nm, "anchor", "-", "not found")
+			continue
+		}
+		c.inst(1)
+		sp := &Spec{EdgeLimit: 1}
+		sp.Classify = func(t *Tracer, fr *Frame, in ssa.Instruction) []Ev {
+			if cl, ok := in.(ssa.CallInstruction); ok {
+				if sf := cl.Common().StaticCallee(); sf != nil && sf.Name() == "MarshalJSON" && sf.Signature.Recv() != nil {
+					rt := sf.Signature.Recv().Type().String()
+					if strings.HasSuffix(rt, "rescache.Model") || strings.HasSuffix(rt, "rescache.Collection") {
+						return []Ev{{Kind: "current", Stop: true}}
+					}
+					if strings.Contains(rt, "Legacy") {
+						return []Ev{{Kind: "convert", Stop: true}}
+					}
+				}
+				if f := calleeFunc(cl.Common()); f != nil && f.Pkg() != nil && f.Pkg().Path() == "encoding/json" && f.Name() == "Marshal" {
+					return []Ev{{Kind: "convert"}}
+				}
+			}
+			return nil
+		}
+		sp.Branch = func(t *Tracer, fr *Frame, i *ssa.If, dir bool) []Ev {
+			x, op, k, ok := cmpConst(i.Cond)
+			if !ok || (op != token.EQL && op != token.NEQ) {
+				return nil
+			}
+			if f, _ := fieldLoad(t.Resolve(fr, x).V); f != fType {
+				if fl, isF := t.Resolve(fr, x).V.(*ssa.Field); !isF || fl.X.Type().Underlying().(*types.Struct).Field(fl.Field) != fType {
+					return nil
+				}
+			}
+			if k != kSoftRef && k != kData {
+				return nil
+			}
+			if (op == token.EQL) == dir {
+				return []Ev{{Kind: "needs-legacy-form"}}
+			}
+			return nil
+		}
+		tr := runTrace(p, fn, sp)
+		bad := ""
+		nConv, nCur := 0, 0
+		for _, path := range tr.Paths {
+			if hasKind(path, "convert") {
+				nConv++
+				if !hasKind(path, "needs-legacy-form") {
+					bad = "the 1.2.0 conversion runs on a path that found no soft reference or data value: " + tr.FmtPath(path)
+				}
+			}
+			if hasKind(path, "current") {
+				nCur++
+				if hasKind(path, "needs-legacy-form") {
+					bad = "a resource holding a soft reference or a data value is handed to a 1.2.0 client in the current encoding (objects it cannot read) — the conversion test is inverted or skipped: " + tr.FmtPath(path)
+				}
+			}
+		}
+		if nConv == 0 || nCur == 0 {
+			bad = fmt.Sprintf("shape not recognised (%d converting, %d current paths)", nConv, nCur)
+		}
+		c.check(bad == "" && !tr.Trunc, nm, "a 1.2.0 client gets the converted form exactly when the resource holds a soft reference or a data value", p.Pos(fn.Pos()), fmt.Sprintf("%d paths convert, %d hand the current encoding on", nConv, nCur), bad)
+	}
+}
+
+// ---------------------------------------------------------------------------
+// DOM/ready-continuation-live (C02, C11): an event that adds a reference waits
+// for the referenced resources to load; when they have, the continuation sends
+// the event only if its subscription is still alive. Every Send (and every
+// hand-out of resources) inside a closure given to OnReady by a method of
+// Subscription lies under the test `state != disposed` of that subscription —
+// tested in the continuation itself, not before the wait.
+
+func ruleReadyContinuationLive(c *Ctx) {
+	p := c.P
+	onReady := p.Method("server.Subscription.OnReady")
+	fState := p.Field("server.Subscription.state")
+	kDisposed := p.ConstInt("server.stateDisposed", -1)
+	if onReady == nil || fState == nil || kDisposed < 0 {
+		c.undecided("(*server.Subscription).OnReady", "anchor", "-", "not found")
+		return
+	}
+	alive := func(i *ssa.If) (bool, bool) {
+		x, op, k, ok := cmpConst(i.Cond)
+		if !ok || k != kDisposed {
+			return false, false
+		}
+		if f, _ := fieldLoad(x); f != fState {
+			return false, false
+		}
+		switch op {
+		case token.EQL:
+			return false, true
+		case token.NEQ:
+			return true, true
+		}
+		return false, false
+	}
+	n := 0
+	for _, fn := range p.Repo {
+		top := TopLevel(fn)
+		if top.Pkg == nil || top.Pkg.Pkg.Name() != "server" || top.Signature.Recv() == nil || !strings.HasSuffix(top.Signature.Recv().Type().String(), "server.Subscription") {
+			continue
+		}
+		for _, call := range callsIn(fn) {
+			if _, ok := isCallTo(call, onReady); !ok {
+				continue
+			}
+			args := callArgs(call.Common())
+			mc, ok := stripConv(args[len(args)-1]).(*ssa.MakeClosure)
+			if !ok {
+				continue
+			}
+			for _, g := range p.withNewHelpers(mc.Fn.(*ssa.Function)) {
+				for _, c2 := range callsIn(g) {
+					f := calleeFunc(c2.Common())
+					if f == nil || (f.Name() != "Send" && f.Name() != "GetRPCResources") {
+						continue
+					}
+					n++
+					c.inst(1)
+					ok := p.guardedByOpt(c2, alive, false) != nil
+					if !ok && g != mc.Fn.(*ssa.Function) && g.Parent() == nil {
+						ok = p.guardedUp(c2, alive, 0)
+					}
+					c.check(ok, fnName(g), "a continuation that waited for references sends only for a live subscription", p.InstrPos(c2), "under state != disposed, tested in the continuation",
+						"after the wait for the referenced resources the event is sent (resources handed out) without testing that the subscription is still alive: a resource the client has unsubscribed, or a connection that is gone, is sent an event and its references are counted as sent")
+				}
+			}
+		}
+	}
+	if n == 0 {
+		c.viol("server.Subscription", "a continuation that waited for references sends only for a live subscription", "-", "no such continuation found")
+	}
+}
